@@ -56,6 +56,7 @@ fn gen_lhs(sig: &LangSig, src: &mut Src, depth: usize, next_bound: &mut Name, sc
             }
             Field::PayU32 => args.push(Arg::P(format!("{}", src.pick(3)))),
             Field::PaySym => args.push(Arg::P("s".into())),
+            Field::PayOther(v) => args.push(Arg::P(v[0].to_string())),
             Field::Kid(nb) => {
                 let mut bs = Vec::new();
                 for _ in 0..*nb {
@@ -124,6 +125,7 @@ fn gen_rhs(lang: LangId, sig: &LangSig, src: &mut Src, depth: usize, scopes: &BT
             Field::Slot => args.push(Arg::S(free[src.pick(free.len())])),
             Field::PayU32 => args.push(Arg::P(format!("{}", src.pick(3)))),
             Field::PaySym => args.push(Arg::P("s".into())),
+            Field::PayOther(v) => args.push(Arg::P(v[0].to_string())),
             Field::Kid(_) => args.push(Arg::K(vec![], gen_rhs(lang, sig, src, depth + 1, scopes, free))),
         }
     }
